@@ -18,13 +18,18 @@ mod c05;
 mod c06;
 mod c07;
 mod c08;
+mod c11;
 mod c12;
 mod c12load;
 mod c13;
 mod c13iret;
 mod c14;
 mod c15;
+mod c16;
+mod c17;
+mod c18;
 mod c19;
+mod c20;
 
 pub struct Args {
     pub prop: String,
@@ -67,11 +72,16 @@ fn main() {
         "C06" => c06::run(&a),
         "C07" => c07::run(&a),
         "C08" => c08::run(&a),
+        "C11F" => c11::run(&a),
         "C12" => c12::run(&a),
         "C13" => c13::run(&a),
         "C14" => c14::run(&a),
         "C15" => c15::run(&a),
+        "C16" => c16::run(&a),
+        "C17" => c17::run(&a),
+        "C18" => c18::run(&a),
         "C19" => c19::run(&a),
+        "C20" => c20::run(&a),
         "MAPPER" => mpsearch::run(&a),
         "profile" => println!("{} overflow_checks={}", out::profile(), out::overflow_checks_on()),
         p => {
